@@ -13,7 +13,8 @@
    (the hash), `nlen` (name length) and `H` (header length) are arbitrary. *)
 From Coq Require Import List NArith ZArith Bool.
 From Tele Require Import Gen.Consts Model.FileConc Proofs.FileConcBase Proofs.FileConcInv
-  Proofs.FileConcThms Proofs.FileConcWitness Proofs.FileConcInv2 Proofs.FileConcProgress Proofs.FileConcOracle Proofs.FileConcShapes.
+  Proofs.FileConcThms Proofs.FileConcWitness Proofs.FileConcInv2 Proofs.FileConcProgress Proofs.FileConcOracle Proofs.FileConcShapes
+  Model.FileCreate Proofs.FileCreateFacts.
 Import ListNotations.
 Open Scope N_scope.
 
@@ -206,6 +207,36 @@ Theorem C04_oracle_accepts_reachable : forall bucket nlen H st0 sched, init_ok b
   wf_obsb bucket nlen H false (obs_of f) = true /\ uniq_obsb (obs_of f) = true.
 Proof. exact oracle_accepts_reachable. Qed.
 Print Assumptions C04_oracle_accepts_reachable.
+
+(* ---- creation of the file (Model/FileCreate.v: openMapped at the granularity
+   of its file-system calls; the file abstracted to its length and the
+   presence of the header).  From any file a killed creator may have left
+   (cfile_ok: the header is there once the file has its full length; e.g.
+   absent, empty, header only) and any number of openers, for every schedule
+   and kill set: every process that finishes opening has succeeded, with a
+   mapping of at least minFileLen bytes of a file that has its header ... *)
+Theorem C04_create_total : forall HL st0 sched i o ok, cinit st0 ->
+  nth_error (snd (crun true HL sched st0)) i = Some o -> o_pc o = CDone ok ->
+  ok = true /\ MINLEN <= o_map o /\ c_hdr (fst (crun true HL sched st0)) = true /\
+  MINLEN <= c_size (fst (crun true HL sched st0)).
+Proof. exact create_total. Qed.
+Print Assumptions C04_create_total.
+
+(* ... and an opener running alone, on whatever file, is done after six calls *)
+Theorem C04_create_solo_done : forall HL f, exists ok, o_pc (snd (solo HL 6 f fresh_opener)) = CDone ok.
+Proof. exact create_solo_done. Qed.
+Print Assumptions C04_create_solo_done.
+
+(* what initialising EVERY short file is needed for: if only an empty file is
+   initialised, a creator killed between its two writes leaves a file that no
+   later opener can ever open *)
+Theorem C04_create_only_empty_refuted :
+  let st0 := (mkC 0 false, [fresh_opener; fresh_opener]) in
+  let st := FileCreate.crun false 192 [0; 0; 0; 1; 1]%nat st0 in
+  c_size (fst st) = 192 /\ option_map o_pc (nth_error (snd st) 1) = Some (CDone false) /\
+  forall k, option_map o_pc (nth_error (snd (FileCreate.crun false 192 (repeat 1%nat k) st)) 1) = Some (CDone false).
+Proof. exact create_only_empty_refuted. Qed.
+Print Assumptions C04_create_only_empty_refuted.
 
 (* non-vacuity: the hypotheses are satisfiable and the model computes *)
 Example C04_init_nonvacuous : init_ok w_bucket w_nlen w_H w_st0.
